@@ -5,6 +5,7 @@ import (
 	"fmt"
 	"io"
 	"strconv"
+	"unicode/utf8"
 )
 
 const encodeHex = "0123456789ABCDEF"
@@ -20,6 +21,16 @@ func writeQuotedString(w io.Writer, s string) {
 	io.WriteString(w, `"`)
 
 	for i, c := range s {
+		if c == utf8.RuneError {
+			// a byte that is not part of a valid UTF-8 sequence would make the
+			// output invalid JSON; emit the replacement character like encoding/json
+			if _, size := utf8.DecodeRuneInString(s[i:]); size == 1 {
+				io.WriteString(w, s[start:i])
+				io.WriteString(w, `\ufffd`)
+				start = i + 1
+			}
+			continue
+		}
 		if c < 0x20 || c == '\\' || c == '"' {
 			io.WriteString(w, s[start:i])
 
